@@ -547,3 +547,157 @@ class _OldNode(SVal):
 class _NewNode(SVal):
     def __init__(self, kw):
         SVal.__init__(self, new_node(kw["__node"], kw["__conf"]))
+
+
+# ---- _cache_results -----------------------------------------------------------------------------------------------------------------------
+class CacheResults:
+    """BaseDAGExecution._cache_results: what is pickled is the results of the run, minus the ids resolved from
+    cache_deps_of (ghost file system: the object handed to pickle.dump)"""
+
+    module = "tawazi._dag.dag"
+    qualname = "BaseDAGExecution._cache_results"
+
+    def __init__(self):
+        self.loops = {0: self.Loop()}
+
+    class Loop(LoopSpec):
+        carried = ("non_cacheable_ids",)
+
+        def rebind(self, env):
+            return {"non_cacheable_ids": SSet.fresh("non_cacheable_ids", Id)}
+
+        def inv(self, env, st):
+            nc = env["non_cacheable_ids"]
+            i = bv("i!cr", I)
+            ids_of = C.ghost["ids_of"]
+            mem = (lambda t: nc.mem(t)) if isinstance(nc, SSet) else None
+            if mem is None:
+                raise ContractBindError("_cache_results: non_cacheable_ids is not a set")
+            return [
+                ("exactly_the_ids_of_the_aliases_seen_so_far", z3.ForAll([x], mem(x) == z3.Exists([i], z3.And(st.seen[i], ids_of(i)[x]))), {"C18"}),
+            ]
+
+    def cases(self):
+        return ["all", "deps_of"]
+
+    def run(self, f, case):
+        dumped, opened, mk = [], [], []
+        ids_arr = z3.Function("ids_of_alias", I, sym.SetSort(Id))
+        ids_of = lambda i: ids_arr(i)  # noqa: E731
+        C.ghost.update(ids_of=ids_of)
+
+        class _P(Sym):
+            HIGHEST_PROTOCOL = 5
+
+            @staticmethod
+            def dump(obj, fh, protocol=None, fix_imports=None):
+                dumped.append((obj, fh))
+
+        class _F(Sym):
+            def __enter__(self):
+                return self
+
+            def __exit__(self, *a):
+                return False
+
+        def _open(path, mode):
+            fh = _F()
+            opened.append((path, mode, fh))
+            return fh
+
+        class _Path(Sym):
+            def __init__(self, p):
+                self.p = p
+
+            @property
+            def parent(self):
+                return self
+
+            def mkdir(self, **k):
+                mk.append(self.p)
+
+        class _AliasSeq(SSeq):
+            pass
+
+        n_al = C.fresh("n_aliases", I)
+        C.assume(n_al >= 0)
+
+        class _Alias(Sym):
+            def __init__(self, i):
+                self.i = i
+
+            def _vc_subst(self, a, b):
+                return _Alias(z3.substitute(self.i, (a, b)))
+
+        class _Dag(Sym):
+            def alias_to_ids(self, alias):
+                if not isinstance(alias, _Alias):
+                    raise ContractBindError("_cache_results: alias_to_ids called with something else than an alias of cache_deps_of")
+                arr = ids_arr(alias.i)
+                return SList(SSet(Id, arr, C.fresh("c_ids", I), "ids"))
+
+        class _Ex(Sym):
+            pass
+
+        ex = _Ex()
+        ex.cache_in = "CACHE-PATH"
+        ex.dag = _Dag()
+        ex.cache_deps_of = SSeq(n_al, lambda i: _Alias(i), list, "cache_deps_of") if case == "deps_of" else None
+        results = SMap.fresh("results", Id, Val)
+        f.__globals__.update({"pickle": _P, "open": _open, "Path": _Path})
+        f(ex, results)
+        n = "_cache_results.post"
+        ok_file = len(opened) == 1 and opened[0][0] == "CACHE-PATH" and opened[0][1] == "wb" and len(dumped) == 1 and dumped[0][1] is opened[0][2]
+        C.check(z3.BoolVal(ok_file), f"{n}.C18.one_pickle_written_to_cache_in", {"C18"}, "post")
+        if len(dumped) != 1:
+            return "return"
+        obj = dumped[0][0]
+        if not isinstance(obj, SMap):
+            raise ContractBindError("_cache_results: the pickled object is not a results map")
+        if case == "all":
+            C.check(z3.And(obj.dom == results.dom, z3.ForAll([x], z3.Implies(results.dom[x], obj.val[x] == results.val[x]))), f"{n}.C18.all_results_of_the_run_are_cached", {"C18"}, "post")
+            return "return"
+        i = bv("i!cr", I)
+        excluded = lambda t: z3.Exists([i], z3.And(i >= 0, i < n_al, ids_arr(i)[t]))  # noqa: E731
+        C.check(z3.ForAll([x], obj.dom[x] == z3.And(results.dom[x], z3.Not(excluded(x)))), f"{n}.C18.every_result_except_those_of_cache_deps_of_is_cached", {"C18"}, "post")
+        C.check(z3.ForAll([x], z3.Implies(obj.dom[x], obj.val[x] == results.val[x])), f"{n}.C18.cached_values_are_the_values_of_the_run", {"C18"}, "post")
+        return "return"
+
+
+# ---- get_multiple_nodes_aliases --------------------------------------------------------------------------------------------------------------
+class GetMultipleNodesAliases:
+    module = "tawazi._dag.dag"
+    qualname = "BaseDAG.get_multiple_nodes_aliases"
+    loops = {}
+
+    def namespace(self):
+        return {"chain": lib.vc_chain}
+
+    def run(self, f, case):
+        ids_arr = z3.Function("ids_of_alias", I, sym.SetSort(Id))
+        bad = z3.Function("alias_is_unknown", I, B)
+        n_al = C.fresh("n_aliases", I)
+        C.assume(n_al >= 0)
+
+        class _Alias(Sym):
+            def __init__(self, i):
+                self.i = i
+
+            def _vc_subst(self, a, b):
+                return _Alias(z3.substitute(self.i, (a, b)))
+
+        class _Dag(Sym):
+            def alias_to_ids(self, alias):
+                # contract of alias_to_ids (AliasToIds): the ids the alias stands for, ValueError for an unknown alias
+                C.check(z3.Not(bad(alias.i)), "get_multiple_nodes_aliases.pre.alias_known", {"C12"}, "pre")
+                return SList(SSet(Id, ids_arr(alias.i), C.fresh("c_ids", I), "ids"))
+
+        dag = _Dag()
+        i = bv("i!ga", I)
+        # the exceptional case (an unknown alias raises ValueError out of alias_to_ids) is structural: no handler here
+        C.assume(z3.ForAll([i], z3.Not(bad(i))))
+        nodes = SSeq(n_al, lambda j: _Alias(j), list, "nodes")
+        r = f(dag, nodes)
+        S = sym.as_set(r, Id)
+        C.check(z3.ForAll([x], S.mem(x) == z3.Exists([i], z3.And(i >= 0, i < n_al, ids_arr(i)[x]))), "get_multiple_nodes_aliases.post.C12.exactly_the_ids_of_all_the_aliases", {"C12", "C18"}, "post")
+        return "return"
